@@ -38,8 +38,8 @@ use std::time::{Duration, Instant};
 
 const ADAPTERS: [&str; 4] = ["reqwest", "reqwest-blocking", "curl", "ureq"];
 const STATUSES: [u16; 10] = [200, 201, 302, 400, 401, 403, 404, 429, 500, 503];
-const CTS: [Option<&str>; 4] = [None, Some("application/json"), Some("Application/JSON; charset=utf-8"), Some("text/html")];
-const BODIES: [&str; 6] = ["empty", "json", "binary", "64k", "chunked", "close-delimited"];
+const CTS: [Option<&str>; 4] = [Some("application/json"), None, Some("Application/JSON; charset=utf-8"), Some("text/html")];
+const BODIES: [&str; 6] = ["json", "empty", "binary", "64k", "chunked", "close-delimited"];
 const REQ_BODIES: [&str; 4] = ["small", "1k", "64k", "bytes256"];
 const FAULTS: [&str; 6] = ["refused", "closed-before-reply", "truncated-200", "truncated-400", "garbage-binary", "garbage-status-line"];
 const TARGET: &str = "/token?tenant=a%20b&x=1";
